@@ -3,5 +3,10 @@
    <<process, call label>> pairs, and the results the model predicts; harness/fs_checks.py replays them on real
    processes with the stepping controller. *)
 EXTENDS DirFS, Json
-Emit == Quiet => PrintT(<<"SCHED", ToJson([sched |-> sched, res |-> res, view |-> FinalView])>>)
+CONSTANT MAXSW
+RECURSIVE Switches(_)
+Switches(sq) == IF Len(sq) < 2 THEN 0 ELSE (IF sq[1][1] # sq[2][1] THEN 1 ELSE 0) + Switches(Tail(sq))
+FewSwitches == Switches(sched) <= MAXSW
+Emit == Quiet => PrintT(<<"SCHED", ToJson([sched |-> sched, res |-> res, view |-> FinalView,
+                                           bad |-> FailedConc({"C14"}, FALSE, Sc.init, Ops, res, FinalView) # {}])>>)
 =============================================================================
